@@ -81,13 +81,25 @@ func lg(n int) uint64 {
 //@   ensures  len(b) > 0 && len(b) >= 1<<(b[0]>>6) ==> n == 1<<(b[0]>>6) && uint64(v) == beAt(b, 0, n) & (1<<(8*uint64(n)-2) - 1)
 //@   ensures  v >= 0
 
-// lemmaVarintRoundTrip: for every v <= 2^62-1, every prefix and every suffix, decoding what
-// AppendVarint produced yields v and consumes exactly the bytes that were appended.
+// lemmaVarintRoundTrip: for every v <= 2^62-1 and every prefix, decoding what AppendVarint
+// produced yields v and consumes exactly the bytes that were appended.
 //
 //@ lemma
 //@ requires v <= MaxVarint
 //@ ensures ok
-func lemmaVarintRoundTrip(v uint64, pre, rest []byte) (ok bool) {
+func lemmaVarintRoundTrip(v uint64, pre []byte) (ok bool) {
+	b := AppendVarint(pre, v)
+	got, n := ConsumeVarint(b[len(pre):])
+	return got == v && n == SizeVarint(v) && n == len(b)-len(pre)
+}
+
+// lemmaVarintRoundTripSuffix: the same with an arbitrary suffix following the encoding
+// (thorough tier: the bulk append introduces a quantified copy axiom).
+//
+//@ lemma
+//@ requires v <= MaxVarint
+//@ ensures ok
+func lemmaVarintRoundTripSuffix(v uint64, pre, rest []byte) (ok bool) {
 	b := AppendVarint(pre, v)
 	mid := len(b)
 	b = append(b, rest...)
